@@ -453,7 +453,23 @@ def k_small(ctx: Ctx):
         combos = rng.sample(combos, 14) + [(0, None), (0, 0), (2, 0), (3, 1)]
     for ne, sz2 in combos:
         fn = safe_make(lambda: F.create_jw_electron_number_post_selection_filter_fn(ne, sz_of(sz2)))
-        bits = allbits + extra
+        # structured wide registers (spin-orbital indices up to 95, crossing the 32- and 64-bit boundaries): exactly
+        # n_e (or n_e ± 1) electrons, spin split equal / near the requested sector, so both verdicts occur
+        wide = []
+        for _ in range(ctx.n(24, 120)):
+            span = rng.choice([34, 40, 66, 72, 96])
+            tot = max(0, ne + rng.choice([0, 0, 0, 0, 1, -1]))
+            want = sz2 if sz2 is not None else rng.randint(-tot, tot)
+            want += rng.choice([0, 0, 0, 2, -2])
+            nup = min(max((tot + want) // 2, 0), tot)
+            ev = rng.sample(range(0, span, 2), min(nup, span // 2))
+            od = rng.sample(range(1, span, 2), min(tot - nup, span // 2))
+            if ev + od and rng.random() < 0.7:  # force one occupied orbital above bit 32
+                hi = rng.choice(range(32 + (ev + od)[0] % 2, span, 2))
+                if hi not in ev + od:
+                    (ev if hi % 2 == 0 else od)[0:1] = [hi]
+            wide.append(sum(1 << i for i in set(ev + od)))
+        bits = allbits + extra + wide
 
         def one(b):
             try:
@@ -472,7 +488,7 @@ def k_small(ctx: Ctx):
                             {"n_electrons": ne, "two_sz": sz2, "bits": b}, {"filter": r})
                 break
     for _ in range(ctx.n(200, 3000)):
-        occ = [rng.randint(0, 20) for _ in range(rng.randint(0, 9))]
+        occ = [rng.randint(0, rng.choice([20, 20, 95])) for _ in range(rng.randint(0, 9))]
         reqs.append("c13sz " + ",".join(map(str, occ)))
         reals.append(real_gf2(lambda: str(int(2 * occupation_state_sz(occ))))[3:])
         what.append(("sz", tuple(occ)))
@@ -515,7 +531,7 @@ def k_small(ctx: Ctx):
         ctx.case(("small", w), nontrivial=True, sample={"request": req[:80], "real": real[:40], "model": r[:40]} if show else None)
         if r != real:
             if w[0] == "jw-filter":
-                bits = allbits + extra
+                bits = [int(x) for x in req.split(" ")[3].split(",")]
                 k = next(i for i in range(len(bits)) if i >= len(r) or r[i] != real[i])
                 ctx.disagree("jw-filter", {"n_electrons": w[1], "two_sz": w[2], "bits": bits[k]}, real[k], r[k:k + 1])
             else:
